@@ -1298,6 +1298,12 @@ class Store:
         target_node = process_store.outer.get_path(target_topology)
         target = target_node.add_node(source_path, source_node)
         target_path = target.path_for() + source_path
+        # what glob ports declare for the children of the target store
+        # holds for the child that has moved in, as it does for children
+        # that are added or generated there
+        if target.inner.get(source_path[-1]) is source_node:
+            target._apply_subschema_path(source_path[-1:])
+            source_node.apply_defaults()
 
         # find the paths to all the processes
         source_process_paths = source_node.depth(
